@@ -461,6 +461,7 @@ def rf_offset_spec(cx, x, phase, ampl):
 
 
 class RFCalcKick(Contract):
+    replay = lambda self, o, model, pid: {'harness': 'sm_replay', 'runs': [['rf', N_, nb_, it_, lin_, 1] for N_ in (16, 17) for nb_ in (1, 2) for it_ in (2, 4) for lin_ in (1, 0)]}
     name = 'vfps::RFKickMap::_calcKick'
     tu = 'src/SM/RFKickMap.cpp'
     params = ['phase', 'ampl']
@@ -752,6 +753,10 @@ class FokkerPlanckCtor(Contract):
         SourceMapCtor.effect(self, cx)
         for f_ in ('_ip', '_it', '_xsize', '_ysize', '_meshxsize', '_dampdecr'):
             cx.st.scal.pop(f'{cx.this}.{f_}', None)
+
+    def replay(self, o, model, pid):
+        runs = [['fp', N_, nb_, ft_, dt_, e1_, 1] for N_ in (64, 48) for nb_ in (1, 2) for ft_ in (0, 1, 2, 3) for dt_ in (3, 4) for e1_ in ('0.01',)]
+        return {'harness': 'sm_replay', 'runs': runs}
 
     # random sources are outside the deterministic model (C12/C15 exclude them)
     def init__prng(self, ex, st, e):
